@@ -1,7 +1,7 @@
 (* C14 -- Message streams are fragmentation-proof and gated by the handshake.
    Property theorems only; proofs live in Proofs/FrameProofs.v, Proofs/ShakeProofs.v. *)
 From Coq Require Import List ZArith Bool.
-From DV Require Import Model.Frame Model.Shake Proofs.FrameProofs Proofs.ShakeProofs Proofs.ShakeAfter Proofs.ShakeChunk.
+From DV Require Import Model.Frame Model.Shake Model.Client Proofs.ClientProofs Proofs.FrameProofs Proofs.ShakeProofs Proofs.ShakeAfter Proofs.ShakeChunk.
 Import ListNotations.
 Open Scope Z_scope.
 
@@ -267,3 +267,47 @@ Example C14_after_example :
   wrestored w = false /\ winner w = cinit /\ wphase w = P5 /\ wlen w = 1 /\ wbuf w = []
   /\ snd (sconn_run ex_O ex_ch (mkS w true) [[8; 0;0]; [0;1]; [5]]) = [Deliver [5]].
 Proof. vm_compute. repeat split; reflexivity. Qed.
+
+(* ======================= client side (blocking sockets) ==================== *)
+(* message.receive / Connector.__do / comms.release read with s.recv(k) loops.
+   A socket = the chunks the kernel hands out (recv never crosses a chunk).  *)
+
+(* One receive returns exactly the first framed message and leaves exactly the
+   bytes behind it, whatever the chunking. *)
+Theorem C14_client_receive : forall s p rest,
+  Forall (fun c : list Z => c <> []) s -> Z.of_nat (length p) < 4294967296 ->
+  concat s = frame p ++ rest ->
+  exists s', receive s = Some (p, s') /\ concat s' = rest /\ Forall (fun c : list Z => c <> []) s'.
+Proof. exact C_receive. Qed.
+Print Assumptions C14_client_receive.
+
+(* What one side writes with message.send / Worker._send (header + payload in
+   one sendall) is read back by successive receives on the other side, in
+   order, for every fragmentation of the stream. *)
+Theorem C14_client_stream : forall ms s rest,
+  Forall (fun c : list Z => c <> []) s ->
+  Forall (fun m => Z.of_nat (length m) < 4294967296) ms ->
+  concat s = concat (map send ms) ++ rest ->
+  exists s', receive_n (length ms) s = Some (ms, s') /\ concat s' = rest.
+Proof.
+  intros ms s rest NE H E. destruct (C_receive_n ms s rest NE H E) as (s' & R & C & _).
+  exists s'. auto.
+Qed.
+Print Assumptions C14_client_stream.
+
+(* ... and the server loops read what the client sends (C14_wellformed with
+   send = frame): both directions of every channel agree on message boundaries. *)
+Theorem C14_send_feed : forall ms chunks,
+  Forall (fun m => Z.of_nat (length m) < 4294967296) ms ->
+  concat chunks = concat (map send ms) -> feed_all finit chunks = (finit, ms).
+Proof. intros ms chunks H E. apply (C14_wellformed ms chunks H E). Qed.
+Print Assumptions C14_send_feed.
+
+Example C14_client_example :
+  receive_n 2 [[0;0]; [0;2;7]; [8;0;0;0;1;9;5]] = Some ([[7;8]; [9]], [[5]])
+  /\ concat [[0;0]; [0;2;7]; [8;0;0;0;1;9;5]] = concat (map send [[7;8]; [9]]) ++ [5].
+Proof. split; vm_compute; reflexivity. Qed.
+(* observation, not a claim of C14: if the peer goes away in mid-message the
+   real loops spin on recv() == b'' for ever; the model runs out of fuel *)
+Example C14_client_eof_observation : receive [[0;0;0;2;7]] = None /\ receive [] = None.
+Proof. split; vm_compute; reflexivity. Qed.
